@@ -65,6 +65,79 @@ def class_codec(F):
     return {'parsed': parsed, 'rng': rng, 'answered': answered, 'class_ok': okc, 'new': new}
 
 
+def attr_walk_checks(F):
+    """The attribute walker sees exactly the attributes the message declares: the attribute region is
+    data[20 .. 20 + message length], each step advances by 4 + the attribute's own declared length, and
+    StunAttribute::len() is that declared length for every variant.  -> [(key, ok, detail, loc)]"""
+    out = []
+    cc = class_codec(F)
+    new = cc['new']
+    d = peel(cc['parsed'].get('data'), unwraps=False)
+    while is_call(d, r'to_vec$'):
+        d = peel(d[2][0], unwraps=False)
+    ok = is_call(d, r'Index<I>>::index$|Index::index$') and peel(d[2][0]) == ('param', 1)
+    det = short(cc['parsed'].get('data'))[:120]
+    if ok:
+        rg = peel(d[2][1], unwraps=False)
+        ok = isinstance(rg, tuple) and rg[0] == 'agg' and str(rg[1]).endswith('ops::Range::Range') and const_val(rg[2][0]) == 20
+        if ok:
+            hi = peel(rg[2][1], casts=True)
+            if isinstance(hi, tuple) and hi[0] == 'field' and hi[2] == '0':
+                hi = hi[1]
+            ok = isinstance(hi, tuple) and hi[0] == 'bin' and hi[1] in ('Add', 'AddWithOverflow') and \
+                ((const_val(hi[2]) == 20 and cc['rng'](peel(hi[3], casts=True)) == ((2, 4), 'read_u16', True)) or
+                 (const_val(hi[3]) == 20 and cc['rng'](peel(hi[2], casts=True)) == ((2, 4), 'read_u16', True)))
+    out.append(('attributes:region', ok, 'attribute bytes = data[20 .. 20 + length field]: %s' % det, '%s:%d' % (new.file, new.line)))
+    ln = F.fn(S + 'StunAttribute::len')
+    rv = []
+    for rb in ln.return_blocks():
+        rv += palts(ln.ret_value(rb))
+    okl = bool(rv) and all(isinstance(a, tuple) and a[0] == 'entry' and Fn.path_of(a[1])[-1:] == [('f', 'length')] and Fn.root_of(a[1]) == ('deref', ('param', 1)) for a in rv)
+    nv = len(F.adts[S + 'StunAttribute']['variants'])
+    okl = okl and len({tuple(p_ for p_ in Fn.path_of(a[1]) if p_[0] == 'v') for a in rv}) == nv
+    out.append(('attributes:len', okl, 'StunAttribute::len() is the declared length field of each of the %d variants: %s' % (nv, [short(a)[:50] for a in rv]), '%s:%d' % (ln.file, ln.line)))
+    ga = F.fn(S + 'StunPacket::get_attributes')
+    steps = []
+    for bi, b in enumerate(ga.blocks):
+        if b['cleanup']:
+            continue
+        for i, st in enumerate(b['stmts']):
+            if not st['lhs']['p'] and ga.locals[st['lhs']['l']]['ty'] == 'usize' and st['rv']['k'] in ('bin', 'use'):
+                v = ga._through(ga.rvalue(st['rv'], (bi, i)), (bi, i), 0)
+                if any(isinstance(x, tuple) and x and x[0] == 'cyc' for x in walk(v)) and calls_in(v, r'StunAttribute::len$'):
+                    steps.append((bi, v))
+    oks = False
+    dets = 'cursor update not found'
+    for bi, v in steps:
+        def flat(e):
+            e = peel(e, casts=True)
+            if isinstance(e, tuple) and e[0] == 'field' and e[2] == '0':
+                e = e[1]
+            if isinstance(e, tuple) and e[0] == 'bin' and e[1] in ('Add', 'AddWithOverflow'):
+                return flat(e[2]) + flat(e[3])
+            return [e]
+        terms = flat(v)
+        c4 = [t for t in terms if const_val(t) == 4]
+        ls = [t for t in terms if is_call(t, r'StunAttribute::len$')]
+        rest = [t for t in terms if t not in c4 and t not in ls]
+        oks = len(c4) == 1 and len(ls) == 1 and ((len(rest) == 1 and isinstance(rest[0], tuple) and rest[0][0] == 'phi') or
+                                                 (not rest and any(isinstance(peel(ga.argv(b2, 1), unwraps=False), tuple) and 'RangeFrom' in short(ga.argv(b2, 1))[:40] and
+                                                                   any(y == v for y in walk(ga.argv(b2, 1))) for b2, _ in ga.calls(r'Index<I>>::index$|Index::index$'))))
+        dets = 'cursor <- %s' % short(v)[:100]
+    # the slice form: rest = &rest[4 + attr.len()..]
+    if not steps:
+        for bi, t in ga.calls(r'Index<I>>::index$|Index::index$'):
+            rg = peel(ga.argv(bi, 1), unwraps=False)
+            if isinstance(rg, tuple) and rg[0] == 'agg' and 'RangeFrom' in str(rg[1]) and calls_in(rg, r'StunAttribute::len$'):
+                e = peel(rg[2][0], casts=True)
+                if isinstance(e, tuple) and e[0] == 'field':
+                    e = e[1]
+                oks = isinstance(e, tuple) and e[0] == 'bin' and e[1] in ('Add', 'AddWithOverflow') and const_val(e[2]) == 4 and is_call(peel(e[3], casts=True), r'StunAttribute::len$')
+                dets = 'remaining slice starts at %s' % short(rg[2][0])[:80]
+    out.append(('attributes:stride', oks, 'each step advances by 4 + the attribute\'s declared length: %s' % dets, '%s:%d' % (ga.file, ga.line)))
+    return out
+
+
 def run(ctx):
     F = ctx.facts()
     rep = ctx.rep
@@ -245,3 +318,36 @@ def run(ctx):
                 ok = bool(crx) and tested and not any(x in r_ for x in some_points(rp))
                 cp = [anyb[0][0]]
     rep.check(r3, ok, 'change-port-test-always-reached', 'from the CHANGE-REQUEST arm every path tests change_port before the loop continues or the function returns: %s' % ok, rp.loc(cp[0]) if cp else '')
+
+    r4 = rep.rule('C15-R4', 'the attributes that are honoured (CHANGE-REQUEST) are exactly those the message declares: attribute region = data[20 .. 20 + length], stride 4 + declared attribute length, len() = declared length for every variant', floor=3)
+    for key, ok_, det_, loc_ in attr_walk_checks(F):
+        rep.check(r4, ok_, key, det_, loc_)
+    # CHANGE-REQUEST flags: change_port is bit 1 and change_ip bit 2 of the 32-bit flag word at value offset 0, each
+    # decided by that bit alone (bit-exact, vlib/bits.py)
+    from vlib.bits import BitEval
+    tf = F.fn('<%sStunAttribute as std::convert::TryFrom<std::vec::Vec<u8>>>::try_from' % S)
+    rep.saw(tf)
+    cr = None
+    for bi, b in enumerate(tf.blocks):
+        for i, st in enumerate(b['stmts']):
+            if st['rv']['k'] == 'agg' and st['rv'].get('adt', '').endswith('StunChangeRequestAttribute') and not b['cleanup']:
+                cr = tf._through(tf.rvalue(st['rv'], (bi, i)), (bi, i), 0)
+    okf, detf = False, 'ChangeRequest construction not found'
+    if cr is not None:
+        names = [fl['name'] for fl in F.adts[S + 'StunChangeRequestAttribute']['variants'][0]['fields']]
+        d_ = dict(zip(names, cr[2]))
+
+        def wsrc(e):
+            if is_call(e, r'ByteOrder>::read_u32$|ByteOrder::read_u32$') and 'BigEndian' in e[1]:
+                sl = peel(e[2][0], unwraps=False)
+                if is_call(sl, r'Index<I>>::index$|Index::index$'):
+                    rg = peel(sl[2][1], unwraps=False)
+                    if isinstance(rg, tuple) and rg[0] == 'agg' and [const_val(x) for x in rg[2]] == [4, 8]:
+                        return ('flagword', 32)
+            return None
+        be_ = BitEval(wsrc)
+        bp, bi_ = be_.bits(d_.get('change_port')), be_.bits(d_.get('change_ip'))
+        okf = bp == [('in', 'flagword', 1)] and bi_ == [('in', 'flagword', 2)]
+        detf = 'change_port <- bit %s, change_ip <- bit %s of the big-endian flag word v[4..8] (required: bit 1 / bit 2 alone)' % (bp, bi_)
+    rep.check(r4, okf, 'change-request:flag-bits', detf, '%s:%d' % (tf.file, tf.line))
+
